@@ -259,13 +259,15 @@ VARIANTS = [("async", "none"), ("sync", "none"), ("async_ot", "none"), ("async_o
 QUERY = "query Q($a: X, $b: X) { f(a: $a, b: $b) }"
 
 
-def run_variant(kind, tv, vspec, kwargs, opname="Q", calls=1, status=200):
+def run_variant(kind, tv, vspec, kwargs, opname="Q", calls=1, status=200, body=None):
     cls = clients.bundled_class(kind)
     is_async = clients.BUNDLED[kind][2]
     captured = []
 
     def handler(request):
         captured.append(parse_request(request))
+        if body is not None:
+            return httpx.Response(status, content=body, headers={"Content-Type": "application/json"})
         return httpx.Response(status, json={"data": {"ok": True}})
 
     c = clients.make_client(cls, is_async, handler, **clients.tracer_kwargs(kind, tv))
@@ -292,14 +294,14 @@ def run_variant(kind, tv, vspec, kwargs, opname="Q", calls=1, status=200):
     return captured, outcome, mutated
 
 
-def check_tree(vspec, kwargs, kname, opname="Q", calls=1, status=200):
+def check_tree(vspec, kwargs, kname, opname="Q", calls=1, status=200, body=None):
     """Returns (problems, tags)."""
     problems = []
     ref_vars, uploads, flags = reference(vspec)
     results = {}
     want_opname = None if opname in (None, "<omitted>") else opname
     for kind, tv in VARIANTS:
-        captured, outcome, mutated = run_variant(kind, tv, vspec, kwargs, opname, calls, status)
+        captured, outcome, mutated = run_variant(kind, tv, vspec, kwargs, opname, calls, status, body)
         results[(kind, tv)] = (captured, outcome)
         if mutated:
             INFO["client_attributes_rebound_by_execute"] = sorted(set(INFO.get("client_attributes_rebound_by_execute", [])) | set(mutated))
@@ -391,6 +393,94 @@ def check_tree(vspec, kwargs, kname, opname="Q", calls=1, status=200):
     if sorted(listed) != sorted(p for p, _ in uploads):
         problems.append(("map_paths", f"listed {sorted(listed)} expected {sorted(p for p, _ in uploads)}"))
     return problems, flags
+
+
+RESPONSE_BODIES = [("json_array", b"[1]"), ("json_null", b"null"), ("json_string", b'"x"'), ("json_number", b"7"), ("truncated", b'{"data": {"ok": tru'), ("empty", b""),
+                   ("errors_only", b'{"errors": [{"message": "m"}]}'), ("errors_not_list", b'{"errors": {"message": "m"}}'), ("invalid_utf8", b'{"data": "\xff"}')]
+CTORS = ["http_client", "headers_only", "headers_and_http_client", "headers_and_http_client_with_own_headers", "two_clients_sharing_http_client", "no_arguments_but_url"]
+
+
+class _HttpxProxy:
+    """Stands in for the `httpx` module inside a bundled client module while a client is constructed WITHOUT http_client: the client it
+    builds for itself gets the capturing mock transport."""
+
+    def __init__(self, transport):
+        self._t = transport
+
+    def __getattr__(self, name):
+        return getattr(httpx, name)
+
+    def AsyncClient(self, *a, **k):
+        return httpx.AsyncClient(*a, transport=self._t, **k)
+
+    def Client(self, *a, **k):
+        return httpx.Client(*a, transport=self._t, **k)
+
+
+def construct(kind, tv, handler, ctor):
+    import sys
+    cls = clients.bundled_class(kind)
+    is_async = clients.BUNDLED[kind][2]
+    tr = httpx.MockTransport(handler)
+    H = httpx.AsyncClient if is_async else httpx.Client
+    tk = clients.tracer_kwargs(kind, tv)
+    url = "http://verif.invalid/graphql"
+    if ctor == "http_client":
+        return cls(url=url, http_client=H(transport=tr), **tk)
+    if ctor == "headers_and_http_client":
+        return cls(url=url, headers={"X-C": "ctor", "X-A": "from-ctor"}, http_client=H(transport=tr), **tk)
+    if ctor == "headers_and_http_client_with_own_headers":
+        return cls(url=url, headers={"X-C": "ctor", "X-Own": "ctor-wins?"}, http_client=H(transport=tr, headers={"X-Own": "http-client", "X-Only-Http": "1"}), **tk)
+    if ctor == "two_clients_sharing_http_client":
+        shared = H(transport=tr, headers={"X-Shared": "s"})
+        first = cls(url=url, headers={"X-C": "first"}, http_client=shared, **tk)
+        cls(url=url, headers={"X-C": "second", "X-Second": "2"}, http_client=shared, **tk)
+        return first
+    mod = sys.modules[cls.__module__]
+    old = mod.httpx
+    mod.httpx = _HttpxProxy(tr)
+    try:
+        if ctor == "headers_only":
+            return cls(url=url, headers={"X-C": "ctor", "X-A": "from-ctor"}, **tk)
+        return cls(url=url, **tk)
+    finally:
+        mod.httpx = old
+
+
+def check_constructors(rep):
+    """Every way of constructing a client x kwargs x {JSON, multipart}: the six client / tracer variants must send identical requests."""
+    n = 0
+    trees = [("json", [("a", ("int",))]), ("upload", [("a", ("up", 1)), ("b", ("int",))])]
+    for ctor in CTORS:
+        for tname, vspec in trees:
+            for kname, kw in KWARGS:
+                if kname == "ctype_override" and tname == "upload":
+                    continue
+                obs = {}
+                for kind, tv in VARIANTS:
+                    is_async = clients.BUNDLED[kind][2]
+                    captured = []
+
+                    def handler(request):
+                        captured.append(parse_request(request))
+                        return httpx.Response(200, json={"data": {"ok": True}})
+                    try:
+                        c = construct(kind, tv, handler, ctor)
+                        ctx = Ctx()
+                        variables = {k: build(sp, ctx) for k, sp in vspec}
+                        resp = clients.call(is_async, c.execute, QUERY, "Q", variables, **kw)
+                        out = ("ok", resp.status_code)
+                    except BaseException as e:  # noqa
+                        out = ("exc", type(e).__name__, str(e)[:120])
+                    obs[(kind, tv)] = ([normalise(x) for x in captured], out)
+                    n += 1
+                base = obs[VARIANTS[0]]
+                for v in VARIANTS[1:]:
+                    if obs[v] != base:
+                        rep.violation("clients_disagree", {f"ctor:{ctor}", f"kwargs:{kname}", f"body:{tname}", f"client:{v[0]}"},
+                                      f"constructed as {ctor}: {v[0]}/{v[1]} sent {obs[v][0]} -> {obs[v][1]} but async/none sent {base[0]} -> {base[1]}",
+                                      {"constructor": ctor, "kwargs": kw, "variables": vspec, "variant": list(v)})
+    return n
 
 
 KWARGS = [("none", {}), ("headers", {"headers": {"X-A": "1"}}), ("ctype_override", {"headers": {"Content-Type": "application/x-custom", "X-B": "2"}}), ("timeout", {"timeout": 5})]
@@ -644,6 +734,15 @@ def main(tier):
                     for clause, detail in problems:
                         if clause == "clients_disagree":
                             rep.violation(clause, feats | {f"status:{stc}"}, detail, {"variables": vspec, "kwargs": kw, "status": stc})
+            if kname == "none" and size_total(vspec) <= 2:
+                # ... and for response bodies declared as JSON that are not what a GraphQL server sends (what execute() hands back / raises must agree)
+                for stc in (200, 500):
+                    for bname, body in RESPONSE_BODIES:
+                        evaluations += len(VARIANTS)
+                        problems, flags = check_tree(vspec, kw, kname, status=stc, body=body)
+                        for clause, detail in problems:
+                            if clause == "clients_disagree":
+                                rep.violation(clause, feats | {f"status:{stc}", f"response_body:{bname}"}, detail, {"variables": vspec, "kwargs": kw, "status": stc, "response_body": body.decode("latin1")})
             if kname == "none" and size_total(vspec) <= (3 if tier == "quick" else 4):
                 for opn, cl in ((None, 1), ("<omitted>", 1), ("Q", 2)):
                     evaluations += len(VARIANTS) * cl
@@ -655,6 +754,7 @@ def main(tier):
             tag_counts[f] = tag_counts.get(f, 0) + 1
         if rep.triage:
             rep.seen(feats)
+    evaluations += check_constructors(rep)
     rep.sample({"variables_spec": specs[len(specs) // 3], "meaning": "tuple tree: ('up', i)=Upload i, ('model', fields)=generated-style model, ('dict'/'list', children)"})
     rep.sample({"variables_spec": specs[-5]})
     # (B) schedules
